@@ -1,6 +1,6 @@
 """C07 - broadcasts reach exactly the connections whose match rules match.
 DESIGN.md C07.1 - C07.5 (structural clauses)."""
-from engine.cfg import (Explorer, estr, is_call, is_int, is_member, is_ref, strip_addr, walk,
+from engine.cfg import (same_expr, Explorer, estr, is_call, is_int, is_member, is_ref, strip_addr, walk,
                         written_lvalues, event_expr, dominators, reach_from)
 from engine.facts import AnalysisBroken
 from engine import lib
@@ -258,7 +258,19 @@ def c07_2(ck, prog):
         cal = c.get('callee')
         if cal in VALIDATORS.values() or cal == '_dbus_validate_bus_namespace':
             a = c['args']
-            whole = is_ref(strip_addr(a[0]) or {}, 'tmp_str') and is_int(a[1], 0) and is_ref(a[2], 'len')
+            # the whole value: start 0, length = the length of the very string object that is validated
+            sobj = strip_addr(a[0])
+
+            def is_len_of(e):
+                return is_call(e, '_dbus_string_get_length') and sobj is not None and \
+                    same_expr(strip_addr(e['args'][0]), sobj)
+            if is_ref(a[2]):
+                defs = [rhs for b2, i2, e2 in fn.events() for l, h, rhs in written_lvalues(e2)
+                        if is_ref(l) and l.get('id') == a[2].get('id') and rhs is not None]
+                lenok = bool(defs) and all(is_len_of(d) for d in defs)
+            else:
+                lenok = is_len_of(a[2])
+            whole = sobj is not None and is_ref(sobj) and is_int(a[1], 0) and lenok
             return user | {(cal, c['id'], whole)}
         if cal in VALIDATORS or cal in setflag:
             seen.add(cal)
@@ -266,7 +278,7 @@ def c07_2(ck, prog):
                 v = VALIDATORS[cal]
                 okv = any(n == v and whole and ctx.result_known(cid) is True for (n, cid, whole) in user)
                 if not okv:
-                    ctx.report('%s is called without %s(&tmp_str, 0, len) having accepted the value' % (cal, v),
+                    ctx.report('%s is called without %s(&str, 0, length of str) having accepted the whole value' % (cal, v),
                                c['line'], key=('validate', cal))
             need = (vals['BUS_MATCH_PATH'] | vals['BUS_MATCH_PATH_NAMESPACE']) if cal == 'bus_match_rule_set_path' \
                 else vals[setflag[cal]]
